@@ -5,6 +5,12 @@
 #include "designgen.h"
 #include <gatery/hlim/Circuit.h>
 #include <iostream>
+#include <fstream>
+#include <filesystem>
+#include <regex>
+#include <set>
+#include <unistd.h>
+#include <gatery/export/vhdl/VHDLExport.h>
 
 using namespace gtry;
 using vh::Rng;
@@ -13,9 +19,51 @@ static void printTrace(std::ostream &o, const std::string &tag, const std::vecto
 	for (size_t c = 0; c < tr.size(); c++) { o << tag << ' ' << c; for (auto &v : tr[c]) o << ' ' << v; o << '\n'; }
 }
 
-struct TwinResult { bool ok = false; std::string err; std::vector<std::vector<std::string>> pre, post; bool adef = false; size_t nodesPre = 0, nodesPost = 0; };
+struct TwinResult { bool ok = false; std::string err; std::string iface; /* port list of the exported top entity */ std::vector<std::vector<std::string>> pre, post; bool adef = false; size_t nodesPre = 0, nodesPost = 0; };
 
-static TwinResult runTwin(const vh::Recipe &recipe, const vh::Decoration &deco, uint64_t stimSeed, size_t ncycles, bool withUndef, bool minimal) {
+// The export half of the property, interface level: the exported top entity has one port per pin, clock and reset of the design, whatever
+// names, areas, comments, attributes, taps or signal copies decorate the logic inside. Returns the sorted port list "name:dir:type;…" of the
+// top entity (lower case), or "export-threw:<message>".
+static std::string exportInterface(DesignScope &design) {
+	namespace fs = std::filesystem;
+	fs::path dir = fs::current_path() / ("c11_export_" + std::to_string((long) getpid()));
+	std::string result;
+	try {
+		fs::create_directories(dir);
+		{
+			vhdl::VHDLExport vhdl(dir / "design.vhd");
+			vhdl.outputMode(vhdl::OutputMode::SINGLE_FILE);
+			vhdl(design.getCircuit());
+		}
+		std::ifstream f(dir / "design.vhd"); std::stringstream ss; ss << f.rdbuf(); std::string text = ss.str();
+		for (auto &c : text) c = (char) std::tolower((unsigned char) c);
+		std::string top = design.getCircuit().getRootNodeGroup()->getName();
+		for (auto &c : top) c = (char) std::tolower((unsigned char) c);
+		// all "entity <name> is … end" blocks; the top entity is the one named like the root group (else the last one)
+		std::regex ent("entity\\s+(\\w+)\\s+is([\\s\\S]*?)end\\s+(entity\\s+)?\\1");
+		std::string block; bool found = false;
+		for (auto it = std::sregex_iterator(text.begin(), text.end(), ent); it != std::sregex_iterator(); ++it) {
+			if (!found) block = (*it)[2];
+			if ((*it)[1] == top) { block = (*it)[2]; found = true; }
+		}
+		std::regex port("(\\w+)\\s*:\\s*(in|out|inout)\\s+([\\w_]+)");
+		// clock and reset ports are not compared: a tap or an attribute may keep a register alive that the undecorated design loses
+		// (an unused register), and with it the clock; the data pins are what the property is about
+		std::set<std::string> clockNames;
+		for (auto &c : design.getCircuit().getClocks()) for (std::string n : {c->getName(), c->getResetName()}) { for (auto &ch : n) ch = (char) std::tolower((unsigned char) ch); clockNames.insert(n); }
+		std::vector<std::string> ports;
+		for (auto it = std::sregex_iterator(block.begin(), block.end(), port); it != std::sregex_iterator(); ++it)
+			if (!clockNames.contains((*it)[1].str()))
+				ports.push_back((*it)[1].str() + ":" + (*it)[2].str() + ":" + (*it)[3].str());
+		std::sort(ports.begin(), ports.end());
+		for (auto &p : ports) result += p + ";";
+		if (result.empty()) result = "no-ports";
+	} catch (const std::exception &e) { result = std::string("export-threw:") + e.what(); for (auto &ch : result) if (ch == '\n' || ch == ' ') ch = '_'; result = result.substr(0, 160); }
+	std::error_code ec; fs::remove_all(dir, ec);
+	return result;
+}
+
+static TwinResult runTwin(const vh::Recipe &recipe, const vh::Decoration &deco, uint64_t stimSeed, size_t ncycles, bool withUndef, bool minimal, bool doExport = false) {
 	TwinResult r;
 	try {
 		DesignScope design;
@@ -28,6 +76,7 @@ static TwinResult runTwin(const vh::Recipe &recipe, const vh::Decoration &deco, 
 		if (minimal) design.getCircuit().postprocess(hlim::MinimalPostprocessing{}); else design.postprocess();
 		r.nodesPost = design.getCircuit().getNodes().size();
 		r.post = vh::simulate(design.getCircuit(), b, st);
+		if (doExport && !minimal) r.iface = exportInterface(design);
 		r.ok = true;
 	} catch (const std::exception &e) { r.err = e.what(); for (auto &ch : r.err) if (ch == '\n' || ch == ' ') ch = '_'; r.err = r.err.substr(0, 120); }
 	return r;
@@ -49,7 +98,11 @@ int main(int argc, char **argv) {
 		bool withUndef = !go.fullyDefined && rng.chance(1, 2);
 		bool minimal = rng.chance(1, 4);
 		uint64_t stimSeed = rng.next(); size_t ncycles = 6 + rng.below(10);
-		TwinResult u = runTwin(recipe, {}, stimSeed, ncycles, withUndef, minimal);
+		bool doExport = rng.chance(1, 3); // a third of the cases is also exported (default post-processing only)
+		// the VHDL exporter has no division / remainder (Process.cpp: "Unhandled operation!"): a design that contains one exports only while
+		// the operator is dead code, which a tap or an attribute changes — such recipes are left out of the export comparison
+		for (auto &st : recipe.steps) if (st.kind == "div" || st.kind == "rem") doExport = false;
+		TwinResult u = runTwin(recipe, {}, stimSeed, ncycles, withUndef, minimal, doExport);
 		if (!u.ok) { std::cout << "# case " << k << " undecorated twin not constructible/processable: " << u.err << '\n'; continue; }
 		std::cout << "case " << k << " pp=" << (minimal ? "minimal" : "default") << " adef=" << u.adef << " nodes=" << u.nodesPre << "->" << u.nodesPost << '\n';
 		std::cout << recipe.toString();
@@ -61,11 +114,12 @@ int main(int argc, char **argv) {
 			if (!d.any()) d.names = true;
 			d.chains = (d.seed % 5 == 0); // taken from the seed so that the other random choices keep their stream
 			std::cout << "twin " << t << " names=" << d.names << " areas=" << d.areas << " comments=" << d.comments << " copies=" << d.copies << " attribs=" << d.attribs << " taps=" << d.taps << " chains=" << d.chains << " dseed=" << d.seed << '\n';
-			TwinResult r = runTwin(recipe, d, stimSeed, ncycles, withUndef, minimal);
+			TwinResult r = runTwin(recipe, d, stimSeed, ncycles, withUndef, minimal, doExport);
 			if (!r.ok) { std::cout << "terr " << t << ' ' << r.err << '\n'; continue; }
 			std::cout << "tnodes " << t << ' ' << r.nodesPre << ' ' << r.nodesPost << '\n';
 			if (r.pre == u.pre) std::cout << "dpre_same " << t << '\n'; else printTrace(std::cout, "dpre " + std::to_string(t), r.pre);
 			if (r.post == u.post) std::cout << "dpost_same " << t << '\n'; else printTrace(std::cout, "dpost " + std::to_string(t), r.post);
+			if (doExport && !minimal) std::cout << "dif " << t << ' ' << (r.iface == u.iface ? "same" : "differs") << " u=" << u.iface << " d=" << r.iface << '\n';
 		}
 		std::cout << "end\n";
 	}
